@@ -12,6 +12,25 @@ def doc : List VM :=
   keyTypes.flatMap fun t => ["raw", "jwk"].flatMap fun rep => ["a", "b"].map fun n =>
     ⟨s!"{t}-{rep}-{n}", s!"{t}-{n}", t, rep == "jwk"⟩
 
+/-- a second DID whose document has the SAME fragments, each bound to the other key of its type (a ↔ b): a verifier that
+    remembers keys by fragment alone confuses the two -/
+def swapAB (k : String) : String :=
+  if k.endsWith "-a" then (k.dropEnd 2).toString ++ "-b" else if k.endsWith "-b" then (k.dropEnd 2).toString ++ "-a" else k
+
+def otherDoc : List VM := doc.map fun v => { v with key := swapAB v.key }
+
+/-- the DID named by the token's `kid` -/
+def kidDid (tok : List Char) : Option String :=
+  match splitDots tok with
+  | hs :: _ =>
+    match (B64.decodeLenient hs).bind fun hb => (bytesToString hb).bind Base.J.parse with
+    | some h => (headerStr h "kid").bind fun k => (k.splitOn "#").head?
+    | none => none
+  | _ => none
+
+def docOf (did : String) : Option (List VM) :=
+  if did == "did:test:iss" then some doc else if did == "did:test:other" then some otherDoc else none
+
 def hexToNats (s : String) : Option (List Nat) := (parseHex s).map fun bs => bs.map (·.toNat)
 
 def natsToHex (bs : List Nat) : String := toHex (bs.map fun n => UInt8.ofNat n)
@@ -50,7 +69,7 @@ def specAccepts (entry : Entry) (pk : Option VM) (recs : List Rec) (tok : List C
           let vm : Option VM := match entry with
             | .pk => pk
             | _ => match (headerStr h "kid").map (·.splitOn "#") with
-              | some (did :: frag :: _) => if did == "did:test:iss" then doc.find? (·.frag == frag) else none
+              | some (did :: frag :: _) => (docOf did).bind fun d => d.find? (·.frag == frag)
               | _ => none
           match vm with
           | none => false
@@ -97,7 +116,9 @@ def judge (input impl : String) : String × String :=
         let det : Option Bytes := if detS == "-" then none else hexToNats detS
         let recs := if recS == "-" then [] else (parseRec recS).toList
         let pk := doc.find? (·.frag == vmS)
-        let ctx : Ctx := ⟨e, doc, "did:test:iss", pk, recs⟩
+        let ctx : Ctx := match kidDid tok with
+          | some "did:test:other" => ⟨e, otherDoc, "did:test:other", pk, recs⟩
+          | _ => ⟨e, doc, "did:test:iss", pk, recs⟩
         let m := if parse ctx tok det then "acc" else "rej"
         let modelCol := if m == res then "=" else s!"model: res={m}"
         let specCol := if res == "acc" && !specAccepts e pk recs tok det
